@@ -177,6 +177,7 @@ def random_behaviours(rng, count, garbage=False):
         ids = list(range(1, rng.randint(2, 4)))
         g = Gen(n, rng)
         idoff = {}
+        huge = 0
         for _ in range(rng.randint(4, 28)):
             a = random_action(g, rng, ids)
             if not a:
@@ -204,6 +205,10 @@ def random_behaviours(rng, count, garbage=False):
                     p = "hex:" + rng.choice(["0d0a", "00", "0a0a0a", "ff00ff0a", "434f4e4e454354200a", "5245474953544552200a", "0204", "4f4b0a", "424547494e20780a"])
                 else:
                     ln = rng.choice([0, 1, 63, 64, 65, 4095, 4096, 4097, 70000, 1048576]) if rng.random() < 0.5 else rng.randint(0, 300)
+                    if ln >= 70000:
+                        huge += 1
+                        if huge > 2:      # what the server legitimately buffers stays far below the driver's heap limit
+                            ln = 4097
                     p = "raw:%s:%d:%d" % (kind, ln, rng.randrange(1 << 16))
                 g.lines.append("send c=%d p=%s%s" % (c, p, " split=%d" % rng.choice([1, 5, 4096, 65536]) if rng.random() < 0.15 and "1048576" not in p and "70000" not in p else ""))
                 continue
@@ -231,7 +236,7 @@ def run_driver(behaviours, wd, flavour="plain"):
     env = {"RELAY_WATCHDOG_S": "180"}
     if flavour == "asan":
         env.update({"RELAY_DATA_LIMIT_MB": "0", "UBSAN_OPTIONS": "print_stacktrace=1:halt_on_error=1",
-                    "ASAN_OPTIONS": "allocator_may_return_null=1:max_allocation_size_mb=16:detect_leaks=0:abort_on_error=0"})
+                    "ASAN_OPTIONS": "allocator_may_return_null=1:max_allocation_size_mb=96:detect_leaks=0:abort_on_error=0"})
     all_lines = []
     start, rounds = 0, 0
     while start < len(behaviours) and rounds < 12:
@@ -349,7 +354,7 @@ def run(chk):
     # histories that end in an identity arriving for a connector whose target is gone (C26: the server must survive it)
     gone_target = [h for h in hists2 if h and h[-1]["op"] in ("id", "con") and h[-1]["res"] == "err" and
                    (h[-1]["op"] == "id" or h[-1].get("pipe", 0) > 0) and len(h) > 1 and h[-1]["sc"] < h[-2]["sc"]]
-    corner = witnesses + rng.sample(gone_target, min(len(gone_target), 40 if not thorough else 400))
+    corner = witnesses + rng.sample(gone_target, min(len(gone_target), 10 if not thorough else 60))
     run_and_validate(chk, [hist_to_script(h, rng).done() for h in corner] +
                      [hist_to_script(h, rng).lines + ["send c=%d p=tok:9" % c for c in (1, 2, 3)] + ["final"] for h in witnesses], "tlc-witnesses")
     k1, k2 = (1500, 1000) if not thorough else (24000, 16000)
